@@ -197,7 +197,7 @@ func c12ValueEdits(r *Rng, b []byte, fam *c12LeafFamily, perLeaf, sample int) []
 	var out []*c12Mutant
 	for _, lf := range leaves {
 		alts := lf.alts
-		if perLeaf > 0 && len(alts) > perLeaf {
+		if perLeaf > 0 && len(alts) > perLeaf && lf.kind != "nat" { // big numbers: every alternative
 			// the minimal change first, the others at random
 			sel := [][]byte{alts[0]}
 			for len(sel) < perLeaf {
